@@ -49,6 +49,8 @@ def scenarios():
                             "bob": [("open", "s", "alice", 0, False), ("send", "s", "b1"), ("recv", "s"), ("send", "s", "b2"), ("recv", "s")]}
     S["callback-receiver"] = {"alice": [("open", "s", "bob", 0, False), ("send", "s", "a1"), ("send", "s", "a2"), ("send", "s", "a3")],
                               "bob": [("open", "s", "alice", 0, True), ("pause", 3)]}
+    S["storage-socket-receiver"] = {"alice": [("open", "s", "bob", 0, False), ("send", "s", "a1"), ("send", "s", "a2"), ("send", "s", "a3")],
+                                    "bob": [("open", "s", "alice", 0, 3), ("pause", 3)]}
     S["callback-both"] = {"alice": [("open", "s", "bob", 0, True), ("send", "s", "a1"), ("send", "s", "a2")],
                           "bob": [("open", "s", "alice", 0, True), ("send", "s", "b1"), ("send", "s", "b2")]}
     S["two-socket-ids"] = {"alice": [("open", "s0", "bob", 0, False), ("open", "s1", "bob", 1, False), ("send", "s0", "a1"), ("send", "s1", "x1"),
@@ -172,7 +174,7 @@ class Endpoint:
                     continue
                 s.record(("call", me, "open", sn, remote, sid, cb))
                 try:
-                    cls = _callback_class(s, me, sn, active=(cb == 2)) if cb else ThreadSocket
+                    cls = _storage_class(s, me, sn) if cb == 3 else _callback_class(s, me, sn, active=(cb == 2)) if cb else ThreadSocket
                     kw = {}
                     if k == "open_log":
                         # a socket that logs its classical communication (entries are kept in memory; nothing is written unless the
@@ -309,6 +311,20 @@ def _payload_of(m):
         except Exception:
             return m
     return m
+
+
+def _storage_class(s, me, sn):
+    """The package's own callback socket (StorageThreadSocket keeps every incoming message); the subclass only reports to the log."""
+    from netqasm.sdk.classical_communication.thread_socket.socket import StorageThreadSocket
+
+    class ST(StorageThreadSocket):
+        def recv_callback(self, msg):
+            super().recv_callback(msg)
+            s.record(("callback", me, sn, self.remote_app_name, self.id, msg))
+
+        def conn_lost_callback(self):
+            s.record(("conn_lost", me, sn))
+    return ST
 
 
 def _callback_class(s, me, sn, active=False):
